@@ -636,6 +636,15 @@ func (po *PinOptions) Equals(po2 *PinOptions) bool {
 		}
 	}
 
+	// also the other way around: keys which are only in po2
+	// (i.e. removed from po) make the options different.
+	for k, v2 := range po2.Metadata {
+		v := po.Metadata[k]
+		if k != "" && v != v2 {
+			return false
+		}
+	}
+
 	// deliberately ignore Update
 
 	lenOrigins1 := len(po.Origins)
